@@ -300,8 +300,8 @@ class C12(core.Check):
         "theorems are about the state machine CBV.C12 (rational coordinates with %.8f rendering, arc / spline / polyLine / project edges, "
         "entities, geometry list, statements of clear / backport / write tied to the source by ast); vertex identity is exact equality "
         "of coordinates (implementation: within TOL), chops are count-only on every axis, origin / angle / curve edges, size-based or "
-        "graded chops, propagation and an exception inside assemble() are outside the model and only covered by the byte-for-byte "
-        "oracle on the generated histories"
+        "graded chops and propagation are outside the model and only covered by the byte-for-byte oracle on the generated "
+        "histories; an exception inside assemble() is modelled for invalid edge data only"
     )
 
     # ------------------------------------------------------------------ generators
@@ -565,6 +565,31 @@ class C12(core.Check):
         spec = model["ops"][bad]
         free = [sl for sl in SLOTS if sl not in spec.get("arcs", {}) and sl not in spec.get("curved", {})]
         spec["bad"] = rng.choice(free)
+        if bad > 0 and rng.random() < 0.4:
+            # the invalid data sits on an edge an earlier operation has already defined (an arc): EdgeList.add finds that
+            # edge first and never creates the invalid one — nothing is raised
+            pos_b = corner_positions(spec)
+            done = False
+            for sl in free:
+                ends = {fmt(pos_b[c]) for c in SLOT_CORNERS[sl]}
+                for a_spec in model["ops"][:bad]:
+                    if a_spec.get("bad"):
+                        continue
+                    pos_a = corner_positions(a_spec)
+                    for sa in SLOTS:
+                        if {fmt(pos_a[c]) for c in SLOT_CORNERS[sa]} == ends and sa not in a_spec.get("curved", {}):
+                            c1, c2 = SLOT_CORNERS[sa]
+                            mid = [(pos_a[c1][d] + pos_a[c2][d]) / 2 for d in range(3)]
+                            along = max(range(3), key=lambda d: abs(pos_a[c1][d] - pos_a[c2][d]))
+                            mid[(along + 1) % 3] += model["frame"][1] * 0.0703125
+                            a_spec.setdefault("arcs", {})[sa] = [round(x, 6) for x in mid]
+                            spec["bad"] = sl
+                            done = True
+                            break
+                    if done:
+                        break
+                if done:
+                    break
         ents = model["entities"]
         steps: List[list] = [["add", e] for e in range(len(ents))]
         k = rng.randrange(4)
@@ -796,7 +821,8 @@ class C12(core.Check):
             def do_assemble():
                 nonlocal asm_ops, assembled, pending, n_vertices, broken
                 if any(i in bad_ops for i in depot if i not in deleted):
-                    # the implementation's word is taken for what is left behind (the correspondence checks it against the model)
+                    # whether it raised and what is left behind is the implementation's word here (the correspondence checks
+                    # both against the model); the oracle clauses are suspended until the next clear()
                     broken = True
                     assembled = True
                     pending = False
